@@ -1168,7 +1168,6 @@ func c04LeftoverSource(c *Ctx, bi bodyImpl, tname string, co, pc *ssa.Function) 
 	}
 }
 
-
 // R12 remainder.threaded
 func c04RemainderThreaded(c *Ctx, bi bodyImpl, tname string, pc *ssa.Function) {
 	recv := pc.Params[0]
@@ -1226,6 +1225,43 @@ func c04RemainderThreaded(c *Ctx, bi bodyImpl, tname string, pc *ssa.Function) {
 			okv := ok && ex.Tuple == ssa.Value(inner) && ex.Index == 1
 			c.Check(okv, "remainder.threaded", tname+".PartialContent:remainder."+field.Name(), st.Pos(), "the wrapped body's remainder",
 				"the body returned for further processing wraps "+pathName(st.Val)+" instead of the remainder of the inner PartialContent call: it still contains the items this call has just consumed, so an exhaustive second step reports them as unexpected (or returns them twice)")
+		}
+	}
+	// the wrapper may be built by a method of the type that is handed the inner remainder
+	for _, b := range pc.Blocks {
+		for _, ins := range b.Instrs {
+			call, ok := ins.(*ssa.Call)
+			if !ok {
+				continue
+			}
+			h := call.Call.StaticCallee()
+			if h == nil || h == pc || len(h.Blocks) == 0 || h.Signature.Recv() == nil || namedOf(h.Signature.Recv().Type()) != bi.named {
+				continue
+			}
+			lits := complitsOf(h, bi.named)
+			if len(lits) == 0 {
+				continue
+			}
+			for _, al := range lits {
+				for _, st := range fieldStores(al, field) {
+					n++
+					c.Sites++
+					v := st.Val
+					if mi, ok := v.(*ssa.MakeInterface); ok {
+						v = mi.X
+					}
+					okv := false
+					for k, par := range h.Params {
+						if v == ssa.Value(par) && k < len(call.Call.Args) {
+							if ex, ok := call.Call.Args[k].(*ssa.Extract); ok && ex.Tuple == ssa.Value(inner) && ex.Index == 1 {
+								okv = true
+							}
+						}
+					}
+					c.Check(okv, "remainder.threaded", tname+".PartialContent:remainder."+field.Name(), call.Pos(), "the wrapped body's remainder (through "+h.Name()+")",
+						"the body returned for further processing is built by "+h.Name()+" from something other than the remainder of the inner PartialContent call: it still contains the items this call has just consumed")
+				}
+			}
 		}
 	}
 	if n == 0 {
